@@ -26,7 +26,7 @@ static uv_loop_t* loops[MAXL];
 static pthread_t thr[MAXL];
 static uv_async_t wake[MAXL];
 static sem_t done[MAXL], started[MAXL];
-static struct { char op[16]; int h, sig, rc, ok, pause; } cmd[MAXL];
+static struct { char op[16]; int h, sig, rc, ok, pause, cbid; } cmd[MAXL];
 /* `race`: the first command is held inside its first sigaction(act != NULL) call - for libuv that is
  * inside the critical section of the signal lock - while the second one is issued on another loop */
 static _Thread_local int pause_armed;
@@ -67,8 +67,8 @@ static void rewrap(void) {
   }
 }
 
-static void logf_(int L, const char* fmt, int a, int b) {
-  char tmp[64]; int n = snprintf(tmp, sizeof tmp, fmt, a, b);
+static void logf_(int L, const char* fmt, int a, int b, int c) {
+  char tmp[64]; int n = snprintf(tmp, sizeof tmp, fmt, a, b, c);
   if (loglen[L] + n + 1 > logcap[L]) { logcap[L] = (logcap[L] + n + 64) * 2; logbuf[L] = realloc(logbuf[L], logcap[L]); }
   memcpy(logbuf[L] + loglen[L], tmp, n + 1); loglen[L] += n;
 }
@@ -81,20 +81,23 @@ static int idof(uv_signal_t* h) { for (int i = 0; i < nh; i++) if (hs[i] == h) r
 
 static void close_cb(uv_handle_t* h) {
   int i = idof((uv_signal_t*) h);
-  logf_(hloop[i], "cb close h%d\n", i, 0);
+  logf_(hloop[i], "cb close h%d\n", i, 0, 0);
   freed[i] = 1; hs[i] = NULL; free(h);
 }
 
-static void signal_cb(uv_signal_t* h, int signum) {
+static void signal_cb_any(uv_signal_t* h, int signum, int which) {
   int i = idof(h);
-  if (!pthread_equal(pthread_self(), thr[hloop[i]])) logf_(hloop[i], "cb wrongthread h%d %d\n", i, signum);
-  else logf_(hloop[i], "cb signal h%d %d\n", i, signum);
+  if (!pthread_equal(pthread_self(), thr[hloop[i]])) logf_(hloop[i], "cb wrongthread h%d %d c%d\n", i, signum, which);
+  else logf_(hloop[i], "cb signal h%d %d c%d\n", i, signum, which);
 }
+static void signal_cb_a(uv_signal_t* h, int signum) { signal_cb_any(h, signum, 0); }
+static void signal_cb_b(uv_signal_t* h, int signum) { signal_cb_any(h, signum, 1); }
 
 static void wake_cb(uv_async_t* a) {
   int L = (int) (a - wake);
   int i = cmd[L].h;
   int wants_pause = cmd[L].pause;
+  uv_signal_cb signal_cb = cmd[L].cbid ? signal_cb_b : signal_cb_a;
   cmd[L].ok = 0;
   pause_armed = wants_pause;
   if (!strcmp(cmd[L].op, "nop")) cmd[L].ok = 1;
@@ -127,16 +130,16 @@ static void* loop_main(void* arg) {
   return NULL;
 }
 
-static int call(int L, const char* op, int h, int sig, int* rc) {
-  snprintf(cmd[L].op, sizeof cmd[L].op, "%s", op); cmd[L].h = h; cmd[L].sig = sig; cmd[L].pause = 0;
+static int call(int L, const char* op, int h, int sig, int cbid, int* rc) {
+  snprintf(cmd[L].op, sizeof cmd[L].op, "%s", op); cmd[L].h = h; cmd[L].sig = sig; cmd[L].pause = 0; cmd[L].cbid = cbid & 1;
   uv_async_send(&wake[L]);
   sem_wait(&done[L]);
   if (rc) *rc = cmd[L].rc;
   return cmd[L].ok;
 }
 
-static void post(int L, const char* op, int h, int sig, int pause) {
-  snprintf(cmd[L].op, sizeof cmd[L].op, "%s", op); cmd[L].h = h; cmd[L].sig = sig; cmd[L].pause = pause;
+static void post(int L, const char* op, int h, int sig, int cbid, int pause) {
+  snprintf(cmd[L].op, sizeof cmd[L].op, "%s", op); cmd[L].h = h; cmd[L].sig = sig; cmd[L].pause = pause; cmd[L].cbid = cbid & 1;
   uv_async_send(&wake[L]);
 }
 
@@ -148,15 +151,15 @@ static int valid_op(const char* op) {
 static void print_ret(int L) { if (cmd[L].ok) printf("ret %d\n", cmd[L].rc); else printf("ret skip\n"); }
 
 /* race A | B on different loops: A is held at its sigaction call while B is given 30 ms to run */
-static void race(const char* op1, int h1, int s1, const char* op2, int h2, int s2) {
+static void race(const char* op1, int h1, int s1, int c1, const char* op2, int h2, int s2, int c2) {
   int A = hloop[h1], B = hloop[h2];
   atomic_store(&paused, 0);
-  post(A, op1, h1, s1, 1);
+  post(A, op1, h1, s1, c1, 1);
   sem_wait(&evt);
   if (atomic_load(&paused)) {
     struct timespec ts;
     int got;
-    post(B, op2, h2, s2, 0);
+    post(B, op2, h2, s2, c2, 0);
     clock_gettime(CLOCK_REALTIME, &ts);
     ts.tv_nsec += 30 * 1000000; if (ts.tv_nsec >= 1000000000) { ts.tv_sec++; ts.tv_nsec -= 1000000000; }
     got = sem_timedwait(&done[B], &ts) == 0;
@@ -165,7 +168,7 @@ static void race(const char* op1, int h1, int s1, const char* op2, int h2, int s
     if (!got) sem_wait(&done[B]);
   } else {
     sem_wait(&done[A]);
-    post(B, op2, h2, s2, 0);
+    post(B, op2, h2, s2, c2, 0);
     sem_wait(&done[B]);
   }
   print_ret(A);      /* note: A's slot is intact, B used another loop's slot */
@@ -173,7 +176,7 @@ static void race(const char* op1, int h1, int s1, const char* op2, int h2, int s
 }
 
 static void quiesce_and_print(void) {
-  for (int L = 0; L < nl; L++) { call(L, "nop", 0, 0, NULL); call(L, "nop", 0, 0, NULL); }
+  for (int L = 0; L < nl; L++) { call(L, "nop", 0, 0, 0, NULL); call(L, "nop", 0, 0, 0, NULL); }
   for (int L = 0; L < nl; L++) {
     if (loglen[L]) fputs(logbuf[L], stdout);
     loglen[L] = 0;
@@ -203,7 +206,7 @@ int main(void) {
   pthread_sigmask(SIG_UNBLOCK, &set, NULL);
   sem_init(&evt, 0, 0); sem_init(&release_sem, 0, 0);
   while (fgets(line, sizeof line, stdin)) {
-    char op[16]; int i, sig = 0;
+    char op[16]; int i, sig = 0, cbid = 0;
     if (!strncmp(line, "init ", 5)) {
       char* p = line + 5; int n;
       if (nl || sscanf(p, "%d%n", &nl, &n) != 1 || nl < 1 || nl > MAXL) { printf("bad-op\n"); continue; }
@@ -233,20 +236,20 @@ int main(void) {
       }
       quiesce_and_print();
     } else if (!strncmp(line, "race ", 5) && nl) {
-      char op1[16], op2[16], a1[64] = "", a2[64] = ""; int h1, h2, s1 = 0, s2 = 0;
+      char op1[16], op2[16], a1[64] = "", a2[64] = ""; int h1, h2, s1 = 0, s2 = 0, c1 = 0, c2 = 0;
       char* bar = strchr(line, '|');
       if (!bar) { printf("bad-op\n"); continue; }
       *bar = 0;
-      if (sscanf(line + 5, "%15s h%d %d", op1, &h1, &s1) < 2 || sscanf(bar + 1, "%15s h%d %d", op2, &h2, &s2) < 2 ||
+      if (sscanf(line + 5, "%15s h%d %d %d", op1, &h1, &s1, &c1) < 2 || sscanf(bar + 1, "%15s h%d %d %d", op2, &h2, &s2, &c2) < 2 ||
           !valid_op(op1) || !valid_op(op2) || h1 < 0 || h1 >= nh || h2 < 0 || h2 >= nh || hloop[h1] == hloop[h2]) { printf("bad-op\n"); continue; }
       (void) a1; (void) a2;
-      race(op1, h1, s1, op2, h2, s2);
+      race(op1, h1, s1, c1, op2, h2, s2, c2);
       quiesce_and_print();
-    } else if (sscanf(line, "%15s h%d %d", op, &i, &sig) >= 2 && i >= 0 && i < nh && nl) {
+    } else if (sscanf(line, "%15s h%d %d %d", op, &i, &sig, &cbid) >= 2 && i >= 0 && i < nh && nl) {
       int rc = 0;
       if (strcmp(op, "start") && strcmp(op, "oneshot") && strcmp(op, "stop") && strcmp(op, "close") &&
           strcmp(op, "ref") && strcmp(op, "unref")) { printf("bad-op\n"); continue; }
-      if (call(hloop[i], op, i, sig, &rc)) printf("ret %d\n", rc); else printf("ret skip\n");
+      if (call(hloop[i], op, i, sig, cbid, &rc)) printf("ret %d\n", rc); else printf("ret skip\n");
       quiesce_and_print();
     } else if (line[0] != '\n') printf("bad-op\n");
   }
